@@ -6,6 +6,8 @@ import (
 	"encoding/hex"
 
 	"github.com/restic/restic/internal/global"
+	"github.com/restic/restic/internal/repository/index"
+	"github.com/restic/restic/internal/restic"
 )
 
 // small shared helpers of the command-level drivers
@@ -45,4 +47,20 @@ func vRewriteHost(host string) func(ctx context.Context, g global.Options) error
 func vSha(b []byte) string {
 	h := sha256.Sum256(b)
 	return hex.EncodeToString(h[:])
+}
+
+// vScaleIndexFull lowers the "index is full" threshold (index.Full, 50000 blobs in production) to n blobs so
+// that small repositories exercise what large ones do: preliminary index files written during a run, several
+// index files per run, the "full index file is kept as is" path of the index rewrite.  n = 0 restores the
+// production rule.
+var vProdIndexFull = index.Full
+
+func vScaleIndexFull(n uint) {
+	if n == 0 {
+		index.Full = vProdIndexFull
+		return
+	}
+	index.Full = func(idx *index.Index) bool {
+		return idx.Len(restic.DataBlob)+idx.Len(restic.TreeBlob) >= n
+	}
 }
